@@ -49,6 +49,10 @@ Definition check_header (m : fmode) (h : header) : outcome :=
            end
        end.
 
+(* a header that carries the NIX format tag *)
+Definition nix_header (v : list Z) (i : idst) : header :=
+  {| h_format := Some file_format; h_version := Some v; h_id := i |}.
+
 (* ---- the file system seen by File.__init__ ---- *)
 Section Open.
   Variable content : Type.                 (* everything below the header: data + metadata *)
